@@ -6,6 +6,18 @@ props = [json.loads(l) for l in open(os.path.join(V, "properties.jsonl"))]
 
 # id -> (technique, level text, level note, design ref)
 CLAIMS = {
+ "C07": ("bounded exhaustive enumeration of wrapper blocks x contents x widths x configurations on the real code; compositionality relation (outer rendering = prefixes + separately rendered contents) with reference list numbering",
+         "For every wrapper (quote, bullet list, headings, definition, ordered lists over 11 start values and up to 15 items) around every content document of the grammar, at every width and configuration, the outer rendering produced by the real code must equal the concatenation of prefix + the real code's rendering of each item's content at width minus prefix width; markers and padding come from a 10-line reference.",
+         "Contents: valid grammar documents depth <=1 quick / <=2 thorough (prefixes stack up to 3/4 deep); footnotes disabled.", "DESIGN.md §4 C07"),
+ "C11": ("bounded exhaustive enumeration of documents (grammar, table slice, all single-byte corruptions) x widths (0 included) x min_wrap_width x options; each case is a pair of executions of the real code with/without allow_width_overflow, related by the property's four clauses",
+         "Width 0 must give TooNarrow; with overflow every width >= 1 must give Ok; a successful rendering must be unchanged by allowing overflow; overflowing lines of table-free documents are bounded by max(w, P + max(min_wrap_width, 5)) with P computed from the oracle DOM.",
+         "Bounds: grammar depth <=2/<=3, widths 0..=12 / 0..=60, min_wrap_width in {3,0,1,6,10}.", "DESIGN.md §4 C11"),
+ "C13": ("bounded exhaustive enumeration of documents x source rewrites x widths; each case is a pair of executions of the real code (original vs rewritten source) that must agree",
+         "Every table-free, pre-free grammar document is rewritten in 8 ways (whitespace runs, comments next to whitespace, spans around text nodes / words, indentation between block tags) and both sources are rendered at every width with plain and rich decorators; results must be identical.",
+         "Known finding KF-C13-1 (TooNarrow vs Ok when a rewrite splits a text node) is recognised by a fixed classifier; when both succeed, byte equality is still required.", "DESIGN.md §4 C13"),
+ "C15": ("bounded exhaustive enumeration of documents x widths x single-option deviations; each case relates the base execution with the execution under one changed option",
+         "About 20 executions per (document, width, decorator): max_wrap_width(m>=w) no-op and m<w bound, padding only appends spaces, strikeout only adds U+0336, no borders/raw mode leave no box characters and are no-ops without tables, footnote and link-wrapping options are no-ops without links and do not touch the body, min_wrap_width never changes a successful table-free rendering.",
+         "Bounds: grammar depth <=2/<=3 + table slice, widths <=14 / <=60.", "DESIGN.md §4 C15"),
  "C02": ("bounded exhaustive enumeration of documents (grammar, seeds, table slice, all single-byte corruptions) x widths x deviation-bounded configurations on the real code; width invariant checked on every line of every successful rendering",
          "Every document of the bounded grammar, every regression seed and every single-byte corruption of the small documents is rendered at every width in range under every configuration of deviation <= 2 (without overflow / no_link_wrapping) with the plain, rich and trivial decorators; the display width of every output line (string and line APIs) is compared with the requested width.",
          "Bounds: grammar depth <=2 quick / <=3 thorough, widths <=16 / <=120; corruption = one byte edit over a 14-byte alphabet; trusts unicode-width.", "DESIGN.md §4 C02"),
